@@ -204,6 +204,10 @@ pub fn run(ctx: &Ctx) {
         if huge {
             specs[0].len = 32 << 20;
         }
+        // lengths just past a 2 MiB (huge page) boundary, in every batch
+        if (i == 1 || i == 2) && ctx.opt_u64("huge", 1) == 1 {
+            specs[0].len = (2 << 20) + [3usize, 4097, (1 << 20) + 7, (2 << 20) - 1][((ctx.batch * 2 + i) % 4) as usize];
+        }
         let to_child = reader.is_some() && r.chance(500);
         let mut problems: Vec<(String, serde_json::Value)> = Vec::new();
         // create, check in creator and clones
